@@ -356,6 +356,8 @@ func (c *Case) docPreview() string {
 	return s
 }
 
+func envTier() string { return os.Getenv("VERIF_TIER") }
+
 // Pending saves the scenario about to be executed, for checks whose failure mode is the death
 // of the process (race detector with halt_on_error): the driver turns it into the replay file.
 func Pending(c *Case) {
